@@ -756,9 +756,9 @@ func strictMutation(st *bstream, reg *region, i int, v byte) bool {
 	switch reg.name {
 	case "sig", "final-sig", "trsig-value":
 		return hexVal(v) != hexVal(st.enc[i]) // other digit or not a digit at all; a mere case change is not judged strictly
-	case "hdr-crlf", "final-hdr-crlf":
-		// a chunk header ends in CR LF; any other byte in either place is a malformed stream, not another way of
-		// writing the same one
+	case "hdr-crlf", "final-hdr-crlf", "data-crlf":
+		// a chunk header ends in CR LF, and so does the data of a chunk; any other byte in either place is a malformed
+		// stream, not another way of writing the same one
 		return v != st.enc[i]
 	case "tr-value":
 		orig := string(st.enc[reg.start:reg.end])
